@@ -127,3 +127,72 @@ def check_values(prop, tier, seed):
                    "that resolve in range without growth/shift; field-vs-index divergence and front padding are excluded by design"]
     mine = [v for v in agg["viols"] if v["prop"] == prop]
     return verdict(prop, tier, seed, "model_checking", coverage, mine, assumptions, t0, replay_writer)
+
+
+FIXED_PATHS = [[{"f": "a"}], [{"f": "b"}], [{"f": "c"}], [{"i": 0}], [{"i": 1}], [{"i": 2}], [{"i": 5}], [{"i": -1}], [{"i": -2}], [{"i": -4}],
+               [{"f": "a"}, {"f": "a"}], [{"f": "a"}, {"i": 0}], [{"f": "a"}, {"i": -1}], [{"i": 0}, {"f": "a"}], [{"i": -1}, {"f": "a"}],
+               [{"i": 0}, {"i": 1}], [{"f": "c"}, {"f": "d"}], []]
+
+
+def check_kinds(prop, tier, seed):
+    t0 = time.time()
+    wd = workdir(f"{prop}_{tier}")
+    build_harness()
+    u, gst, gtr = universes("GenKinds.tla", wd, ["KINDS", "VALUES", "MEMBERS"])
+    kinds, values, members = u["KINDS"], u["VALUES"], u["MEMBERS"]
+    rnd = random.Random(seed)
+    # (kind, member) pairs to insert / merge with
+    pairs = [(ki, vi - 1) for ki, ms in enumerate(members) for vi in ms]
+    per_kind = 3 if tier == "quick" else 12
+    npaths = 6 if tier == "quick" else 18
+    cases = []
+    for ki, ms in enumerate(members):
+        if not ms:
+            continue
+        chosen = ms if len(ms) <= per_kind else rnd.sample(ms, per_kind)
+        for vi in chosen:
+            v = values[vi - 1]
+            ps = existing_paths(v, 2)
+            ps = ps + [p for p in FIXED_PATHS if p not in ps]
+            if len(ps) > npaths:
+                ex = existing_paths(v, 2)
+                keep = ex[: npaths // 2]
+                rest = [p for p in ps if p not in keep]
+                ps = keep + rnd.sample(rest, npaths - len(keep))
+            for p in ps:
+                kxi, xi = rnd.choice(pairs)
+                k2i, v2i = rnd.choice(pairs)
+                cases.append({"k": kinds[ki], "v": v, "p": p, "kx": kinds[kxi], "x": values[xi],
+                              "k2": kinds[k2i], "v2": values[v2i], "compact": rnd.random() < 0.5})
+    log(f"[{prop}] {len(kinds)} kinds, {len(values)} values, {len(pairs)} member pairs, {len(cases)} cases ({time.time()-t0:.0f}s)")
+    traces = run_cases(cases, wd, "kinds", shards=NCPU)
+    agg = aggregate(validate(traces, wd, spec="TraceKinds.tla", cfg=TRACE_CFG))
+    cnt = agg["cnt"]
+    write_json(os.path.join(wd, "findings.json"), {"viols": agg["viols"][:200]})
+
+    def replay_writer(v):
+        with open(v["_file"]) as f:
+            line = f.readlines()[v["line"] - 1]
+        return {"engine": "B/kinds", "record": json.loads(line)}
+
+    coverage = {
+        "states": gst + agg["states"], "transitions": gtr + agg["transitions"],
+        "traces_validated_against_impl": cnt.get("ops", 0),
+        "samples": [{"kind": c["k"], "value": c["v"], "path": c["p"]} for c in cases[:3]],
+        "evaluations": cnt.get("ops", 0) + cnt.get("unbound", 0),
+        "distinct_nontrivial": cnt.get("ops", 0),
+        "rule": "kinds of GenKinds.tla (primitive sets, objects over fields {a,b}, arrays with known indices incl. holes, unknown in "
+                "{none, exact integer, exact bytes|null, any, json}, one level of nesting, collection-or-primitive mixes) x member values "
+                "decided by the specification's InKind x paths (the value's own paths with negative aliases + a fixed list of missing, "
+                "out-of-range and negative paths) x a random (kind, member) to insert and to merge with x compact flag. non-trivial = the "
+                "kind survived the trip through the real builders and still contains the value (Bound)",
+        "kinds": len(kinds), "values": len(values), "member_pairs": len(pairs),
+        "cases_unbound_by_builder_roundtrip": cnt.get("unbound", 0), "cases_with_existing_path": cnt.get("path_existed", 0),
+        "superset_true_cases": cnt.get("superset_true", 0), "object_merges": cnt.get("merges", 0),
+        "exhaustive": False,
+    }
+    assumptions = ["membership is the specification's InKind, written from the documented meaning of kinds, not from Kind::is_superset",
+                   "real kinds are built with the public builders from the TLC description and serialised back through public accessors; "
+                   "cases whose kind does not survive that trip are counted as unbound, not judged"]
+    mine = [v for v in agg["viols"] if v["prop"] == prop]
+    return verdict(prop, tier, seed, "model_checking", coverage, mine, assumptions, t0, replay_writer)
